@@ -410,6 +410,7 @@ class WSGITask(Task):
             self.status = status
 
             # Prepare the headers for output
+            validated = []
             for k, v in headers:
                 if not isinstance(k, str):
                     raise AssertionError(
@@ -437,8 +438,11 @@ class WSGITask(Task):
                         '%s is a "hop-by-hop" header; it cannot be used by '
                         "a WSGI application (see PEP 3333)" % k
                     )
+                validated.append((k, v))
 
-            self.response_headers.extend(headers)
+            # keep what was validated, not the application's own (possibly
+            # mutable) items: changing them later must not reach the wire
+            self.response_headers.extend(validated)
 
             # Return a method used to write the response data.
             return self.write
